@@ -2403,22 +2403,71 @@ def keygen_cert_strategy(tier: str):
     return build()
 
 
+# Exclusions (what is deliberately not asserted, and why)
+#  * an RSA signature renamed to another algorithm name with the same hash
+#    (rsa-sha2-256 <-> ssh-rsa-sha256@ssh.com <-> rsa2048-sha256, ...) is
+#    byte-identical to the signature made under that name: expected True.
+#  * ECDSA (r, s) re-encoded with a zero-padded mpint is the same signature
+#    value in a longer encoding (OpenSSH accepts it too): probe label only.
+#  * order of options inside a generated certificate (asyncssh emits
+#    no-touch-required last instead of lexically first).
+#  * allowed-signers valid-before: OpenSSH is inclusive ("at or before"),
+#    asyncssh documents and implements "before"; the model asserts the
+#    documented behaviour, the differential family skips that one instant.
+#  * SSHSIG made with a certificate whose subject key is also listed as a
+#    plain key, with a host certificate or with a certificate without
+#    principals: asyncssh accepts, OpenSSH refuses; not generated in the
+#    differential family, the model follows the property text ("principal
+#    listed or none listed") and asyncssh's CERT_TYPE_ANY.
+#  * unquoted option values in allowed-signers lines (asyncssh-only
+#    leniency) appear in the model family only.
+#  * certificates whose blob names rsa-sha2-*-cert-v01@openssh.com, carry
+#    unsorted / repeated / raw-data options are outside PROTOCOL.certkeys'
+#    well-formed set: only "must be refused" verdicts are asserted there.
+
 FAMILIES = [
     Family('rawsig', run_rawsig, strategy=rawsig_strategy,
-           budget={'quick': 260, 'thorough': 8000},
+           budget={'quick': 260, 'thorough': 10000},
            required={'all': ['kt:' + k for k in KTS] +
                      ['alg:' + a for a in RSA_SIG] +
-                     ['alias-swap', 'msg-empty', 'msg-long', 'byte-edits']}),
+                     ['alias-swap', 'msg-empty', 'msg-long', 'byte-edits',
+                      'alg-swap', 'other-key', 'other-msg', 'resize']}),
     Family('cert-model', run_cert_model, strategy=cert_model_strategy,
-           budget={'quick': 400, 'thorough': 12000}),
+           budget={'quick': 400, 'thorough': 12000},
+           required={'all': ['builder:api', 'builder:ref', 'import:ok',
+                             'import:unknown-critical', 'import:bad-type',
+                             'unknown-extension', 'no-principals',
+                             'has-critical', 'boundary-instants',
+                             'validate:ok', 'validate:expired',
+                             'validate:not-yet-valid', 'validate:principal',
+                             'validate:type', 'tamper:vb+',
+                             'tamper:add-principal',
+                             'tamper:other-ca-signs'] +
+                     ['ca:' + k for k in KTS]}),
     Family('cert-edit', run_cert_edit, strategy=cert_edit_strategy,
-           budget={'quick': 64, 'thorough': 1600},
-           shards={'quick': 4, 'thorough': 16}),
+           budget={'quick': 64, 'thorough': 2000},
+           shards={'quick': 4, 'thorough': 16},
+           required={'all': ['edit:sig', 'edit:ca', 'edit:pubkey',
+                             'edit:type', 'edit:va', 'edit:vb',
+                             'edit:principals', 'edit:critical', 'resize',
+                             'builder:api', 'builder:ref']}),
     Family('sshsig-model', run_sshsig_model, strategy=sshsig_model_strategy,
-           budget={'quick': 300, 'thorough': 8000}),
+           budget={'quick': 300, 'thorough': 8000},
+           required={'all': ['signer:cert', 'signer:key', 'auth:key-entry',
+                             'auth:cert-ok', 'auth:cert-expired',
+                             'auth:cert-not-yet-valid', 'auth:no-entry',
+                             'auth:no-ca-entry', 'edit:bytes',
+                             'edit:namespace', 'edit:hash', 'edit:message',
+                             'is-hashed', 'junk-lines']}),
     Family('keygen-sshsig', run_keygen_sshsig,
            strategy=keygen_sshsig_strategy,
-           budget={'quick': 64, 'thorough': 1500}),
+           budget={'quick': 64, 'thorough': 1500},
+           required={'all': ['dir:a2k', 'dir:k2a', 'signer:cert',
+                             'verdict:accept', 'verdict:refuse',
+                             'altered']}),
     Family('keygen-cert', run_keygen_cert, strategy=keygen_cert_strategy,
-           budget={'quick': 64, 'thorough': 1500}),
+           budget={'quick': 64, 'thorough': 1500},
+           required={'all': ['dir:a2k', 'dir:k2a', 'L-fields', 'validated',
+                             'import:unknown-critical',
+                             'unknown-extension']}),
 ]
